@@ -63,6 +63,8 @@ def _dpll(clauses, nv):
 # raises when its own `time_limit` expires.  Set by harness/subcorr.run_minimize for the duration of a
 # minimize_subcircuits run (exact synthesis with 5 leaves / 8 gates can take picosat tens of minutes).
 PROPAGATION_LIMIT = None
+# seconds to sleep before every solve(): makes a time limit expire deterministically (harness/searchcorr)
+SLOW_SECONDS = 0
 
 
 def _picosat(clauses, nv):
@@ -114,6 +116,9 @@ class Solver:
             self.add_clause(c)
 
     def solve(self, assumptions=()):
+        if SLOW_SECONDS:
+            import time
+            time.sleep(SLOW_SECONDS)      # a sound and complete solver that is slow (time-limit scenarios)
         cls = self._clauses + [[a] for a in assumptions]
         nv = max([self._nv] + [abs(a) for a in assumptions])
         if any(len(c) == 0 for c in cls):
